@@ -1,6 +1,7 @@
 import LyModel.Props.C07
 import LyModel.Valid.LemmasCompletionFresh
 import LyModel.Valid.LemmasCompletionObs
+import LyModel.Valid.LemmasCompletionTree
 /-!
 # C07 `implicit_exact_tree` — the validated tree against the RFC completion of the explicit data, whole trees
 
@@ -82,10 +83,85 @@ example :
     (validate Xx {} t).tree.map (fun n => n.kids.map fun k => (k.sid, k.kids.length)) = [[(1, 0), (2, 0), (2, 0), (3, 1), (5, 2)]] := by
   refine ⟨by decide +kernel, by decide +kernel, by decide +kernel, by decide +kernel, by decide +kernel, by decide +kernel⟩
 
+/-- **`implicit_exact_tree`** — the validated tree is the RFC completion of the explicit data, for EVERY schema of the model: `choice` /
+`case` in any nesting (default cases, choices inside cases, cases holding containers and lists), containers, lists, leaves and
+leaf-lists with defaults; the repaired variant of F180 (`lyd_new_implicit` completes the case of THIS choice); options without
+`LYD_VALIDATE_NO_STATE`; every tree `t` of ANY depth in which every node carries `LYD_NEW` and none `LYD_DEFAULT` (`freshExplL`),
+whose nodes sit below their schema parents (`placedCL`), whose inner nodes are instances of containers / lists (`cShapedL`), and in
+which, on every sibling level, the data of a choice sit in ONE case (`SelOk (hasInst level) schema-children`: true of every instance the
+validation accepts; with data in two cases the validation reports DUPCASE and `rfcL` completes only the first):
+`validate t = rfcComplete t` up to `obsL` — the same nodes, values, default flags of terminal nodes and SIBLING ORDER at every depth —
+although `lyd_new_implicit` does the choices of a level first and the RFC specification `rfcL` goes through the schema in order.
+Schema hypotheses, decidable (`choiceSchema_of_B`): on every data level the children of choices are cases, the data ids differ, table
+rows are statement records, no leaf-list has two equal defaults (`LvlWf`); every node is found under its id; an empty container reads
+well.  The proof: `rfcL_eq_implL` — the completion of one level = the level `lyd_new_implicit` builds, with every container / list
+entry completed in place (induction over the selection derivation `SelOk`; the choices of the rest of a level do not see the default
+nodes of another schema node: `implL_commT`, `implChoices_fold_insert`, on `insertNode_comm`; `rfcNode` on a choice works on `selCase`:
+`rfcNode_choice`) — lifted over the depth by `subtreeNode_rfcC`. -/
+theorem implicit_exact_tree (X : SchemaX) (o : VOpts) (t : List DNode) (hno : o.noState = false)
+    (hq : X.q.implicitInnerCase = false) (hD : ChoiceSchema X)
+    (hf : freshExplL t = true) (hp : placedCL X X.top t = true) (hs : cShapedL X.base t = true)
+    (hsel : SelOk (hasInst t) X.top ∧ selOkL X t)
+    (hh : sheightL X.top ≤ walkFuel X t) (hpe : (o.present && t.isEmpty) = false) :
+    obsL X.base (validate X o t).tree = obsL X.base (rfcComplete X o t) :=
+  validate_rfcComplete_choice X o t hno hq hD hf hp hs hsel hh hpe
+
+/-- non-vacuity (schema `Sc` of Props/C07.lean: `choice o { case a { leaf x; choice i { default d; case d { leaf u {default} } case e { leaf v } }
+leaf da {default} } case b { leaf w } } container n { choice p { default q; case q { leaf r {default} } case s { leaf t } } }`): the fresh
+tree `[x, n { }]`… `n` given with `t` — hypotheses hold; the validation adds `u` (nested default case), `da`; below `n` nothing (case `s`) -/
+example :
+    let t : List DNode := freshL Sc [.term 2 {} [] [49], .inner 11 {} [] [.term 16 {} [] [51]]]
+    choiceSchemaB Xc = true ∧ choiceDataB Xc t = true ∧ (validate Xc {} t).tree.map (·.sid) = [2, 5, 8, 11] := by
+  refine ⟨by decide +kernel, by decide +kernel, by decide +kernel⟩
+
+/-- the Boolean hypotheses give the ones of the theorem -/
+theorem implicit_exact_tree_of_B (X : SchemaX) (o : VOpts) (t : List DNode) (hno : o.noState = false)
+    (hq : X.q.implicitInnerCase = false) (hS : choiceSchemaB X = true) (hT : choiceDataB X t = true)
+    (hpe : (o.present && t.isEmpty) = false) :
+    obsL X.base (validate X o t).tree = obsL X.base (rfcComplete X o t) := by
+  unfold choiceDataB at hT
+  simp only [Bool.and_eq_true, decide_eq_true_eq] at hT
+  exact implicit_exact_tree X o t hno hq (choiceSchema_of_B X hS) hT.1.1.1.1.1 hT.1.1.1.1.2 hT.1.1.1.2
+    ⟨selOk_of_B _ _ _ hT.1.1.2, selOkL_of_B X _ t hT.1.2⟩ hT.2 hpe
+
+/-! ## trees that are not fresh -/
+
+/-- schema of the witness: `leaf-list ll { default "a"; default "b"; }` -/
+def Sll : Schema := { modName := "m", nodes := [{ depth := 0, kind := .leaflist, name := "ll", dflts := [[97], [98]] }] }
+def Xll : SchemaX := { SchemaX.ofSchema Sll with q := Quirks.fixed }
+/-- the default instance `b` alone: what is left when the client removes the default instance `a` with `lyd_free_tree` -/
+def tll : List DNode := [.term 0 { dflt := true } [] [98]]
+
+/-- **full strength for NON-fresh trees, false**: "every validated tree is the RFC completion of its own explicit part"
+(`rfcComplete T = T` for `T = validate t`, every REACHABLE `t`) does not hold — a history may remove a default-flagged node: build nothing,
+validate (`ll` = a, b, both default), free the instance `a`, validate: the tree `[b (default)]` is a fixpoint (the leaf-list has an instance,
+nothing is created), but its explicit part is empty and the RFC puts BOTH defaults in use.  (Not a defect of the validation: the client
+deleted implicit data.)  So the statement for non-fresh trees needs a hypothesis on the history — the edits touch explicit nodes only — and the
+invariant that default-flagged nodes are exactly the completion of the explicit part; the law `implicit` of tools/checks/c07.py evaluates it
+on histories whose edits are of that kind. -/
+theorem implicit_exact_tree_nonfresh_fails :
+    ¬ ∀ (X : SchemaX) (o : VOpts) (t : List DNode), X.q = Quirks.fixed → Reachable X o t →
+      obsL X.base (validate X o t).tree = obsL X.base (rfcComplete X o (validate X o t).tree) := by
+  intro h
+  have hd : (applyDelete Sll [.value 0 [97]] (validate Xll {} (freshL Sll [])).tree).map (beqL tll) = some true := by decide +kernel
+  cases ha : applyDelete Sll [.value 0 [97]] (validate Xll {} (freshL Sll [])).tree with
+  | none => rw [ha] at hd; cases hd
+  | some t2 =>
+    rw [ha] at hd
+    simp only [Option.map_some, Option.some.injEq] at hd
+    have ht : tll = t2 := beqL_eq _ _ hd
+    subst ht
+    have hr : Reachable Xll {} tll := Reachable.delete (t := (validate Xll {} (freshL Sll [])).tree) [.value 0 [97]]
+      (Reachable.validate (Reachable.fresh [])) ha
+    have := congrArg List.length (h Xll {} tll rfl hr)
+    revert this
+    decide +kernel
+
 /-! ## not proved
 
--- OPEN: `implicit_exact_tree` for schemas WITH `choice` / `case`: the equation `obs (validate X o t).tree = obs (rfcComplete X o t)` (and for
--- trees that are not fresh: `rfcComplete T = T` on every validated `T`).  What is there: the equation without choices, the explicit half for
+-- (`implicit_exact_tree` WITH `choice` / `case` on fresh data: proved above.)
+-- OPEN: trees that are not fresh (`rfcComplete T = T` on every validated `T`); `LYD_VALIDATE_NO_STATE`; the defective variant F180 (false there:
+-- `implicit_exact_choice_F180_fails`).  Older notes on the level lemma:  What is there: the equation without choices, the explicit half for
 -- all schemas; per level `implicit_exact_choice` (which schema
 -- nodes gain an instance) and `dflt_flag_sound` (what an added node looks like); `implL_tr` (the level is the input with the created
 -- nodes linked in event order) and `insertNode_comm` / `foldl_insertNode_sortIns` (any order of linking nodes of different schema nodes
